@@ -346,7 +346,7 @@ func (Area) Gen(r *rand.Rand, tier string, emit func(string)) {
 	crEdges(emit)
 	nCR := 400
 	if tier == "thorough" {
-		nCR = 20000
+		nCR = 8000
 	}
 	for i := 0; i < nCR; i++ {
 		emit(genCR(r))
